@@ -12,8 +12,9 @@ EXTENDS WsFrame, Json
 
 CONSTANTS NKeys
 
-VARIABLES side, keyn, variant, phase
-vars == <<side, keyn, variant, phase>>
+VARIABLES side, keyn, variant, phase,
+          cut       \* client role: -1, or the server closes the connection after this many bytes of its response
+vars == <<side, keyn, variant, phase, cut>>
 
 \* client keys: Base64 of 16 bytes (key 0 is the RFC's example nonce "the sample nonce")
 KeyBytes(n) == IF n = 0 THEN <<116,104,101,32,115,97,109,112,108,101,32,110,111,110,99,101>>
@@ -30,7 +31,12 @@ V_WebSocketMixed == <<87,101,98,83,111,99,107,101,116>>                         
 Path    == <<47,99,104,97,116>>                                                                \* /chat
 
 Std(key, sp) == << H(N_Host, sp, V_h), H(N_Upgrade, sp, V_websocket), H(N_Conn, sp, V_Upgrade), H(N_Key, sp, key), H(N_Version, sp, V_13) >>
-ServerVariants == {"std", "lower", "upper", "keepalive", "nospace", "proto", "noupgrade", "h2c", "mixedcase"}
+\* "proto" / "proto2" (growth): the client offers the sub-protocol chat / mqtt.  RFC 6455 4.2.2 (/protocol/): the server's
+\* Sec-WebSocket-Protocol, if it sends one, names a sub-protocol the client offered (4.1: otherwise the client must fail the
+\* connection).  Hazard name for a server that answers with a fixed name: ProtocolNotOffered.
+ServerVariants == {"std", "lower", "upper", "keepalive", "nospace", "proto", "proto2", "noupgrade", "h2c", "mixedcase"}
+V_mqtt == <<109,113,116,116>>
+Offered(v) == IF v = "proto" THEN <<V_chat>> ELSE IF v = "proto2" THEN <<V_mqtt>> ELSE <<>>
 ReqHeaders(v, key) ==
     IF v = "std" THEN Std(key, <<32>>)
     ELSE IF v = "lower" THEN [i \in 1..5 |-> [Std(key, <<32>>)[i] EXCEPT !.n = LowerB(@)]]
@@ -38,25 +44,49 @@ ReqHeaders(v, key) ==
     ELSE IF v = "keepalive" THEN [Std(key, <<32>>) EXCEPT ![3] = H(N_Conn, <<32>>, V_KaUpgrade)]
     ELSE IF v = "nospace" THEN Std(key, <<>>)
     ELSE IF v = "proto" THEN Std(key, <<32>>) \o <<H(N_Proto, <<32>>, V_chat)>>
+    ELSE IF v = "proto2" THEN Std(key, <<32>>) \o <<H(N_Proto, <<32>>, V_mqtt)>>
     ELSE IF v = "noupgrade" THEN << H(N_Host, <<32>>, V_h), H(N_Conn, <<32>>, V_Upgrade), H(N_Key, <<32>>, key), H(N_Version, <<32>>, V_13) >>
     ELSE IF v = "h2c" THEN [Std(key, <<32>>) EXCEPT ![2] = H(N_Upgrade, <<32>>, V_h2c)]
     ELSE [Std(key, <<32>>) EXCEPT ![2] = H(N_Upgrade, <<32>>, V_WebSocketMixed)]
 \* must the server upgrade?  "yes" / "no" / "any" (RFC: the Upgrade token is case-insensitive; the property does not say)
 MustUpgrade(v) == IF v \in {"noupgrade", "h2c"} THEN "no" ELSE IF v = "mixedcase" THEN "any" ELSE "yes"
 
-ClientVariants == {"ok", "status200", "noupgradehdr", "lowernames"}
+\* client role (growth): the response carries the accept value of the key the CLIENT chose (the replayer's raw server puts it
+\* where the response has AcceptSlot), the value of another key, or none; the server may close during the handshake (cut);
+\* or nobody listens on the port at all ("refused").  RFC 6455 4.1: the client MUST fail the connection when the status is
+\* not 101, when Upgrade / Connection are missing or wrong, and when Sec-WebSocket-Accept is missing or is not the Base64 of
+\* the SHA-1 of its key and the GUID (hazard name for a client that does not look at it: ClientAcceptUnchecked).
+ClientVariants == {"ok", "status200", "noupgradehdr", "lowernames", "badaccept", "noaccept", "refused"}
+AcceptSlot == [i \in 1..28 |-> 37]
 L_200 == <<72,84,84,80,47,49,46,49,32,50,48,48,32,79,75>>     \* HTTP/1.1 200 OK
 RespFor(v, accept) ==
     IF v = "ok" THEN HandshakeResponse(accept)
     ELSE IF v = "status200" THEN L_200 \o CRLF \o HeaderLines(<<H(N_Upgrade, <<32>>, V_websocket), H(N_Conn, <<32>>, V_Upgrade), H(N_Accept, <<32>>, accept)>>) \o CRLF
     ELSE IF v = "noupgradehdr" THEN L_101 \o CRLF \o HeaderLines(<<H(N_Conn, <<32>>, V_Upgrade), H(N_Accept, <<32>>, accept)>>) \o CRLF
+    ELSE IF v = "badaccept" THEN HandshakeResponse(SampleAccept)              \* (the client's key is random: not the RFC's sample key)
+    ELSE IF v = "noaccept" THEN L_101 \o CRLF \o HeaderLines(<<H(N_Upgrade, <<32>>, V_websocket), H(N_Conn, <<32>>, V_Upgrade)>>) \o CRLF
+    ELSE IF v = "refused" THEN <<>>
     ELSE L_101 \o CRLF \o HeaderLines(<<H(LowerB(N_Upgrade), <<32>>, V_websocket), H(LowerB(N_Conn), <<32>>, V_Upgrade), H(LowerB(N_Accept), <<32>>, accept)>>) \o CRLF
-MayConnect(v) == IF v = "ok" THEN "yes" ELSE IF v = "lowernames" THEN "any" ELSE "no"
+\* (a response that only lacks its very last LF when the server closes: the head is recognisable, left open)
+MayConnect(v, ct) == IF ct >= 0 THEN (IF ct = Len(RespFor("ok", AcceptSlot)) - 1 THEN "any" ELSE "no") ELSE IF v = "ok" THEN "yes" ELSE IF v = "lowernames" THEN "any" ELSE "no"
+ClientHz(v) == IF v \in {"badaccept", "noaccept"} THEN {"ClientAcceptUnchecked"} ELSE {}
 
-Init == /\ side \in {"server", "client"} /\ keyn \in 0..NKeys /\ phase = "new"
-        /\ variant \in (IF side = "server" THEN ServerVariants ELSE ClientVariants)
-        /\ (side = "client" => keyn = 0)
-Shake == phase = "new" /\ phase' = "done" /\ UNCHANGED <<side, keyn, variant>>
+\* a WebSocketServer linked to an HttpServer (HttpServer::link): ordinary requests on the port are answered by the HTTP
+\* handler (here: 200 with the body "ok:" ++ path), an upgrade request on the same port - also after keep-alive requests on
+\* the same connection - is handed over to the WebSocket server; other connections go on being served as HTTP
+LinkVariants == {"ws0", "ws1", "ws2", "plain"}
+V_keepalive == <<107,101,101,112,45,97,108,105,118,101>>
+PlainPath(i) == <<47, 112, 48 + i>>                                                         \* /p1 ...
+PlainReq(path) == L_Get \o path \o L_Http11 \o CRLF \o HeaderLines(<<H(N_Host, <<32>>, V_h), H(N_Conn, <<32>>, V_keepalive)>>) \o CRLF
+HttpBody(path) == <<111, 107, 58>> \o path                                                  \* ok:/p1
+Plain(i) == [req |-> PlainReq(PlainPath(i)), status |-> 200, body |-> HttpBody(PlainPath(i))]
+NPre(v) == IF v = "ws1" THEN 1 ELSE IF v = "ws2" \/ v = "plain" THEN 2 ELSE 0
+
+Init == /\ side \in {"server", "client", "link"} /\ keyn \in 0..NKeys /\ phase = "new"
+        /\ variant \in (IF side = "server" THEN ServerVariants ELSE IF side = "client" THEN ClientVariants ELSE LinkVariants)
+        /\ (side = "client" => keyn = 0) /\ (side = "link" => keyn <= 2)
+        /\ cut \in (IF side = "client" /\ variant = "ok" THEN -1..(Len(RespFor("ok", AcceptSlot)) - 1) ELSE {-1})
+Shake == phase = "new" /\ phase' = "done" /\ UNCHANGED <<side, keyn, variant, cut>>
 Next == Shake
 Spec == Init /\ [][Next]_vars
 
@@ -75,10 +105,16 @@ RequestParses == side = "server" =>
              IN hl.ok /\ hl.p = Len(req) + 1 /\ HeadValue(hl.lines, LowerB(N_Key)) = Key(keyn)
                 /\ hl.lines[1] = L_Get \o Path \o L_Http11
 
-EmitRec(sd, kn, v) ==
+EmitRec(sd, kn, v, ct) ==
     IF sd = "server"
     THEN [k |-> "hs", variant |-> v, req |-> HandshakeRequest(Path, ReqHeaders(v, Key(kn))), key |-> Key(kn), accept |-> Accept(Key(kn)),
-          upgrade |-> MustUpgrade(v), proto |-> (v = "proto"), w |-> AfterC2S, out |-> <<Hi>>, echo |-> Echo]
-    ELSE [k |-> "hsc", variant |-> v, path |-> Path, resp |-> RespFor(v, Accept(Key(0))), connect |-> MayConnect(v), w |-> AfterS2C, out |-> <<Hi>>]
-Emit == PrintT(ToJson(EmitRec(side', keyn', variant')))
+          upgrade |-> MustUpgrade(v), proto |-> (v = "proto"), offered |-> Offered(v), w |-> AfterC2S, out |-> <<Hi>>, echo |-> Echo,
+          hz |-> IF v = "proto2" THEN {"ProtocolNotOffered"} ELSE {}]
+    ELSE IF sd = "client"
+    THEN [k |-> "hsc", variant |-> v, path |-> Path, resp |-> RespFor(v, AcceptSlot), cut |-> ct, connect |-> MayConnect(v, ct), w |-> AfterS2C, out |-> <<Hi>>,
+          hz |-> ClientHz(v)]
+    ELSE [k |-> "link", variant |-> v, pre |-> [i \in 1..NPre(v) |-> Plain(i)], upgrade |-> v # "plain",
+          req |-> HandshakeRequest(Path, ReqHeaders("std", Key(kn))), accept |-> Accept(Key(kn)), w |-> AfterC2S, out |-> <<Hi>>, echo |-> Echo,
+          post |-> Plain(7)]
+Emit == PrintT(ToJson(EmitRec(side', keyn', variant', cut')))
 ================================================================================
